@@ -245,6 +245,13 @@ def gen_world(rs: int, P: dict) -> dict:
         sim["verbose"] = True          # rarely used public option (progress output goes to a sink)
     if ropt.random() < 0.06:
         sim["iface_sub"] = True        # interface_type: a user subclass of Interface that adds nothing
+    if ropt.random() < 0.08:
+        # the machine running the simulation sits in a zone with DST; half of these runs span the night of a transition
+        sim["host_tz"] = ropt.choice(["America/Los_Angeles", "Europe/Berlin", "Australia/Sydney"])
+        if ropt.random() < 0.5:
+            mo_, d_ = {"America/Los_Angeles": [(3, 10), (11, 3)], "Europe/Berlin": [(3, 31), (10, 27)],
+                       "Australia/Sydney": [(4, 7), (10, 6)]}[sim["host_tz"]][ropt.randrange(2)]
+            sim["start"] = [2019, mo_, d_, ropt.choice([0, 1, 1]), ropt.choice([0, 30, 45])]
     if ropt.random() < 0.05 and P["net"] == "custom":
         sim["deepcopy_before_run"] = True   # the simulator that runs is a copy.deepcopy of the one that was built
     if ropt.random() < 0.08:
